@@ -3331,7 +3331,11 @@ def auto_chunks(chunks, shape, limit, dtype, previous_chunks=None):
 
     if previous_chunks:
         # Base ideal ratio on the median chunk size of the previous chunks
-        median_chunks = {a: np.median(previous_chunks[a]) for a in autos}
+        # (zero-width previous chunks can pull the median of a non-empty axis below
+        # one element, which no chunk can honour; the excess would go to other axes)
+        median_chunks = {
+            a: max(min(1, shape[a]), np.median(previous_chunks[a])) for a in autos
+        }
         result = {}
 
         # How much larger or smaller the ideal chunk size is relative to what we have now
